@@ -201,3 +201,30 @@ PLANS["C09"] = dict(
     clauses={"edge-disjoint exact cover by cliques of 2..m0 vertices; no edges left": "bounded (all labelled graphs <= 5 vertices, every tie-break path)", "isolated maximal cliques intact": "bounded",
              "edge removal ignores missing edges": "proved (Network.remove_edge)", "binom(order, 2)": "proved"},
     not_decided=["graphs beyond the bound; termination"])
+
+PLANS["C06"] = dict(
+    level="other", bounded="c06",
+    modules=[dict(name="jdd")],
+    technique="deductive verification of the real normalise_jdd (iteration over a dict through a ghost duplicate-free key enumeration, finite-map sum theory M-SUM) by VCs from the AST in z3/cvc5; every loader's law by exact-Fraction run-time postconditions on small boxes, both construction paths (labelled stand-in)",
+    level_text="Proved for all inputs: normalisation divides every value by the old total, keeps the key set and yields total mass 1 (under the assumed finite-map sum axioms). The loaders' laws (manual identity, empirical frequencies, normalised product of marginals on the half-open box, sampling mode's functional part, joint function on the closed box, dispatch equals direct construction) are decided by the bounded stand-in with exact Fractions; 'in the limit of many samples' is the law of large numbers and is not decided.",
+    level_note="Trusted: vf VC generator, z3/cvc5; assumed M-SUM axioms (update, scale), dict iteration visits every key once; A-REAL; A-CALLBACK. Bound: boxes with <= 3 dimensions, side <= 4 (6), observed sequences <= 6 tuples.",
+    explanation="PROVED: JointDegree.normalise_jdd keys_unchanged / each_divided_by_old_total / sums_to_one (19 obligations). BOUNDED: each loader's distribution equals the exact oracle, non-negative, same through load_joint_degree; sampling mode: one aligned weighted draw per dimension over kmin..kmax with k = n_samples, frequency table of the column-wise assembled draws.",
+    clauses={"manual returns the given dictionary": "bounded", "empirical = relative frequency": "bounded", "marginal = normalised product on the box (direct)": "normalisation proved; product bounded",
+             "marginal sampling": "functional part bounded; 'in the limit of many samples' NOT DECIDED", "function loader on the whole box": "bounded", "dispatch gives the same distribution": "bounded"},
+    not_decided=["'in the limit of many samples' (law of large numbers)"])
+PLANS["C07"] = dict(
+    level="exploration", bounded="c07", modules=[],
+    technique="bounded (labelled stand-in): exact-Fraction oracle for every mass of the split-degree and delta loaders over seeded parameter choices, several loaders per process",
+    level_text="No contract for these loaders has been discharged yet (recursive generator, nonlinear products); the deciding check is a bounded comparison of every mass with an exact oracle.",
+    level_note="Bound: degree ranges within [0,12] (40), 1..4 topologies, probabilities k/5, three degree functions, targets from lo-1 to hi+1, sequences of up to three loaders in one process; tolerance 1e-12.",
+    explanation="BOUNDED: support = admissible splits of every k in the range (delta: only at the target, pure first-topology degree elsewhere), mass of degree k proportional to fp(k), within k proportional to the product of probabilities raised to the edges spent, total mass 1; both construction paths.",
+    clauses={"mass of all joint degrees using k edges proportional to fp(k)": "bounded", "within k split in proportion to prod p_t^((t+1) d_t)": "bounded", "sums to 1": "bounded", "delta splits only at the target": "bounded"},
+    not_decided=["parameters beyond the bound"])
+PLANS["C08"] = dict(
+    level="exploration", bounded="c08", modules=[],
+    technique="bounded (labelled stand-in): exact oracle for the cover loader over all covers of <= 3 cliques on <= 5 vertices and sampled covers with large cliques, both id bases and both construction paths",
+    level_text="No contract for the cover loader has been discharged yet (column deletion over nested lists); the deciding check is a bounded comparison with an exact oracle.",
+    level_note="Bound: all covers of <= 3 (4) cliques over contiguous vertex ranges with <= 5 vertices, 0- and 1-based; 300 (5000) sampled covers with clique sizes up to 10 over <= 14 vertices.",
+    explanation="BOUNDED: motif_sizes = ascending set of occurring clique sizes; one column per occurring size; per-vertex counts; jdd = empirical distribution of the per-vertex tuples; input unchanged.",
+    clauses={"one column per occurring size, reported ascending": "bounded", "per-vertex counts of cover cliques of each size": "bounded", "empirical distribution of the tuples": "bounded"},
+    not_decided=["covers beyond the bound"])
